@@ -86,6 +86,34 @@ fn circle_pairs(rng: &mut Rng) {
     emit_oracle_only("circle.cc_interval", &Tok::new(), &Tok::new(), &v);
 }
 
+/// Tangents from a point EXACTLY on the circle (lattice points of an integer circle: the distance to the centre is the
+/// radius bit for bit) — there is no tangent from a point that is not outside, the answer is `None` — and outer tangents
+/// of circles that touch internally (integer centres and radii, |c0 c1| = |r0 − r1| exactly): no panic, no segments.
+fn tangents_on_the_circle(rng: &mut Rng) {
+    let k = *rng.pick(&[1.0, 2.0, 0.5]);
+    let (cx, cy) = (rng.int(-5, 5) as f64, rng.int(-5, 5) as f64);
+    let on: [(f64, f64); 12] = [(5., 0.), (-5., 0.), (0., 5.), (0., -5.), (3., 4.), (-3., 4.), (3., -4.), (-3., -4.), (4., 3.), (-4., 3.), (4., -3.), (-4., -3.)];
+    let c = Circle2::new(cx, cy, 5.0 * k);
+    let q = *rng.pick(&on);
+    let p = Point2::new(cx + k * q.0, cy + k * q.1);
+    let mut v = Verdict::new();
+    match guarded(|| c.tangent_points_to(&p)) {
+        Err(e) => v.require(false, "tangent.panics", || e.clone()),
+        Ok(r) => v.require(r.is_none(), "tangent.none_from_a_point_on_the_circle", || format!("{p:?} on centre ({cx},{cy}) r={}: {r:?}", 5.0 * k)),
+    }
+    // internally tangent: centres d apart, radii r and r + d
+    let (r0, d) = (rng.int(1, 4) as f64, rng.int(1, 3) as f64);
+    let dir = *rng.pick(&[(1.0, 0.0), (0.0, 1.0), (-1.0, 0.0), (0.6, 0.8), (-0.8, 0.6)]);
+    let (a, b) = (Circle2::new(cx, cy, r0), Circle2::new(cx + 5.0 * d * dir.0, cy + 5.0 * d * dir.1, r0 + 5.0 * d));
+    for (x, y, what) in [(&a, &b, "small in large"), (&b, &a, "large around small")] {
+        match guarded(|| x.outer_tangents_to(y)) {
+            Err(e) => v.require(false, "outer_tangents.panics", || format!("internally tangent circles ({what}): {e}")),
+            Ok(r) => v.require(r.is_none(), "outer_tangents.none_for_internally_tangent_circles", || format!("{what}: {:?} r={} and {:?} r={}", x.center, x.r(), y.center, y.r())),
+        }
+    }
+    emit_oracle_only("circle.tangent_exact", &Tok::new(), &Tok::new(), &v);
+}
+
 fn tangents(rng: &mut Rng) {
     let c = Circle2::new(rng.range(-5.0, 5.0), rng.range(-5.0, 5.0), rng.range(0.1, 4.0));
     let ratio = match rng.below(6) {
@@ -519,6 +547,7 @@ pub fn run(rng: &mut Rng, n: usize) {
             case("circle.case", "c11.library_call_panics", || tangents(rng));
             case("circle.case", "c11.library_call_panics", || lines(rng));
             case("circle.case", "c11.library_call_panics", || lattice_chords(rng));
+            case("circle.case", "c11.library_call_panics", || tangents_on_the_circle(rng));
         }
         case("circle.case", "c11.library_call_panics", || arcs(rng));
         case("circle.case", "c11.library_call_panics", || boxes_of_every_constructor(rng));
